@@ -262,3 +262,23 @@ def ellipse_affine(a, pts):
                 return f'winding at {q}: closed form {w_cf}, outline {w_out}, ideal membership {want}'
         return None
     return Case(line, 'I', judge, 'ellipse-from-affine', 'oracle')
+
+
+def ellipse_perimeter_high_aspect(case, outs, verdict):
+    """root cause (named in the property record itself): Ellipse::perimeter chooses between the Kummer series and the AGM iteration by a truncation
+    bound that is slightly optimistic for very eccentric ellipses: above an aspect ratio of about 50 the result misses the requested accuracy by up
+    to ~10 %.  The class: an ellipse with aspect ratio > 50 whose perimeter differs from the outline length by at most 1.25 x the accuracy."""
+    import re
+    if 'closed-form perimeter' not in verdict or case.meta.get('maker') != 'full':
+        return False
+    kind, params = case.meta['args'][0], case.meta['args'][1]
+    if kind != 'ellipse':
+        return False
+    rx, ry = abs(params[2]), abs(params[3])
+    if min(rx, ry) <= 0 or max(rx, ry) / min(rx, ry) <= 50:
+        return False
+    m = re.search(r'closed-form perimeter ([-0-9.e+]+) \(accuracy ([-0-9.e+]+)\) vs outline length ([-0-9.e+]+)', verdict)
+    return bool(m) and abs(float(m.group(1)) - float(m.group(3))) <= 1.25 * float(m.group(2))
+
+
+KNOWN_CLASSES = {'ellipse_perimeter_high_aspect': ellipse_perimeter_high_aspect}
